@@ -333,6 +333,25 @@ func (m *monC18) Step(f *Flow) {
 		m.established, m.checked = map[int]bool{}, map[int]bool{}
 	}
 	w := f.W
+	// requests issued while a connect attempt was in progress fail with
+	// ErrDown once it has failed: while the application sits out its backoff
+	// (no attempt in progress) for a second and more, none of them may still
+	// wait inside the library
+	if f.readerIdleAfterFailedAttempt && f.S != nil && !f.S.dead && w.Steps%16 == 0 && f.S.Now()-f.failedAttemptTime > time.Second {
+		for _, r := range f.ActiveReqs {
+			if r.Invoke == 0 || r.Invoke >= f.failedAttemptStep || r.Ret != 0 || r.Dead || r.QuitAt != 0 || r.QuitK == quitClosed || r.attemptFlagged {
+				continue
+			}
+			// (a task that was scheduled since, or sits at a park point,
+			// is on its way; one that did not move at all waits inside)
+			// and the write lock is free: nobody it could be queued
+			// behind
+			if !f.S.IsParked(r.Task) && f.S.Releases[r.Task] == r.relAtFail && f.C != nil && f.C.VerifWriteLockFree() {
+				r.attemptFlagged = true
+				w.Violate("C18", "blocks-through-failed-attempt", rkNames[r.Kind], "%s #%d was issued at step %d while a connect attempt was in progress; the attempt failed at step %d and %v later, with no attempt in progress since, the call still waits: want ErrDown", rkNames[r.Kind], r.Idx, r.Invoke, f.failedAttemptStep, f.S.Now()-f.failedAttemptTime)
+			}
+		}
+	}
 	for _, c := range f.recentConns() {
 		if m.checked[c.id] {
 			continue
